@@ -44,6 +44,9 @@ CHECKS = {
  "C15": dict(level="exploration", technique="exhaustive enumeration of the shipped configuration lattice x a term corpus, in fresh sessions and in single sessions walking through all configurations; fired-rule hook for coverage",
              text="All 45 language x style x verbosity configurations found under Rules/ with the 8 braille codes rotated through (each code also under English), 7 fallback tags: every preference accepted; speech, overview, braille and a 5-command navigation walk Ok on the corpus; regional/unknown tags equal the language they fall back to; three sessions walking through all configurations reproduce the fresh-session results. Evidence lists rules fired / defined per rule file.",
              note="Languages/zz is a test fixture and not shipped. Fallback comparison pins the decimal mark because the language tag also selects the locale.", design="§4 C15", engine="E1+E2"),
+ "C10": dict(level="model_checking", technique="exhaustive enumeration of API call histories (all histories up to a depth from the initial state, plus de Bruijn sessions covering every call window after a long history) against a switch-free fresh-session reference model; exhaustive enumeration of thread interleavings at API-call granularity under a controlled scheduler",
+             text="25-call alphabet chosen to collide on every cache (14 preference writes, 4 expressions, 7 observations). Quick: all histories of depth <=2, depth 3 starting with set_mathml, three depth-4 shapes (configure/set/switch/observe, configure/set/observe/observe, set/observe/switch/observe) in fresh sessions, and an order-3 de Bruijn sequence run as long sessions; thorough: all depth-4 histories ending in an observation and an order-4 de Bruijn sequence. Every observation is compared with a fresh session that sets the current preference values before anything loads. Schedules: all interleavings of 2-thread x 4-step and 3-thread x 3-step script tuples (thorough: longer), each thread compared with its solo run.",
+             note="API-call granularity is justified by a census of process-wide mutable state in the crate (none; re-counted on every run). A mismatch is filed under 'stale canonicalization' only when the canonical MathML of the expression really differs between the preferences at set_mathml time and now (decided by two reference sessions).", design="§4 C10", engine="E2+E3"),
 }
 PENDING = {}
 
